@@ -561,6 +561,8 @@ var purePrefixes = []string{
 	"sigs.k8s.io/controller-runtime/pkg/client.ObjectKeyFromObject", "k8s.io/klog/v2.KObj", "k8s.io/klog/v2.KRef",
 	"(error).Error", "github.com/samber/lo.",
 	"(sigs.k8s.io/controller-runtime/pkg/client.Client).SubResource", "(sigs.k8s.io/controller-runtime/pkg/client.Client).Status", "(sigs.k8s.io/controller-runtime/pkg/client.Client).Scheme",
+	"k8s.io/apimachinery/third_party/forked/golang/reflect.(Equalities).DeepEqual", "k8s.io/apimachinery/pkg/api/equality.",
+	"sigs.k8s.io/controller-runtime/pkg/client.MergeFrom", "github.com/awslabs/operatorpkg/object.GVK",
 	"(sigs.k8s.io/karpenter/pkg/cloudprovider.CloudProvider).RepairPolicies", "(sigs.k8s.io/karpenter/pkg/cloudprovider.CloudProvider).GetSupportedNodeClasses", "(sigs.k8s.io/karpenter/pkg/cloudprovider.CloudProvider).Name", "(*sigs.k8s.io/karpenter/pkg/events.", "(sigs.k8s.io/karpenter/pkg/events.Recorder)", "sigs.k8s.io/karpenter/pkg/events.",
 }
 
@@ -777,5 +779,60 @@ func init() {
 		hh := e.get(cx.st, h)
 		cx.st.heap[h] = fmt.Sprintf("(store %s %s ((as const (Array Str Bool)) false))", hh, cx.args[0])
 		return nil
+	}
+}
+
+// resource.Quantity is an integer number of nano-units (the finest scale a Quantity can hold).
+func init() {
+	const q = "k8s.io/apimachinery/pkg/api/resource.(*Quantity)."
+	qt := func(cx *callCtx, i int) types.Type { return cx.argTs[i].Underlying().(*types.Pointer).Elem() }
+	ld := func(cx *callCtx, i int) Term { return cx.fr.eng.loadAt(cx.st, cx.args[i], qt(cx, i)) }
+	stubs[q+"IsZero"] = func(cx *callCtx) []Term { return []Term{eq(ld(cx, 0), "0")} }
+	stubs[q+"Sign"] = func(cx *callCtx) []Term {
+		v := ld(cx, 0)
+		return []Term{fmt.Sprintf("(ite (< %s 0) (- 1) (ite (> %s 0) 1 0))", v, v)}
+	}
+	stubs[q+"Cmp"] = func(cx *callCtx) []Term {
+		v := ld(cx, 0)
+		return []Term{fmt.Sprintf("(ite (< %s %s) (- 1) (ite (> %s %s) 1 0))", v, cx.args[1], v, cx.args[1])}
+	}
+	stubs[q+"Equal"] = func(cx *callCtx) []Term { return []Term{eq(ld(cx, 0), cx.args[1])} }
+	stubs[q+"Add"] = func(cx *callCtx) []Term {
+		cx.fr.eng.storeAt(cx.st, cx.args[0], qt(cx, 0), fmt.Sprintf("(+ %s %s)", ld(cx, 0), cx.args[1]))
+		return nil
+	}
+	stubs[q+"Sub"] = func(cx *callCtx) []Term {
+		cx.fr.eng.storeAt(cx.st, cx.args[0], qt(cx, 0), fmt.Sprintf("(- %s %s)", ld(cx, 0), cx.args[1]))
+		return nil
+	}
+	stubs[q+"Neg"] = func(cx *callCtx) []Term {
+		cx.fr.eng.storeAt(cx.st, cx.args[0], qt(cx, 0), fmt.Sprintf("(- %s)", ld(cx, 0)))
+		return nil
+	}
+	stubs["k8s.io/apimachinery/pkg/api/resource.(Quantity).DeepCopy"] = func(cx *callCtx) []Term { return []Term{cx.args[0]} }
+
+	// corev1.Taint.MatchTaint: same key and effect
+	stubs["k8s.io/api/core/v1.(*Taint).MatchTaint"] = func(cx *callCtx) []Term {
+		e := cx.fr.eng
+		t := cx.argTs[0].Underlying().(*types.Pointer).Elem()
+		a, b := cx.args[0], cx.args[1]
+		return []Term{and(eq(e.loadField(cx.st, a, t, 0), e.loadField(cx.st, b, t, 0)), eq(e.loadField(cx.st, a, t, 2), e.loadField(cx.st, b, t, 2)))}
+	}
+	// lo.ToSlicePtr: pointers to the elements of the argument, in order
+	stubs["github.com/samber/lo.ToSlicePtr"] = func(cx *callCtx) []Term {
+		e := cx.fr.eng
+		vc := e.vc
+		rt := cx.sig.Results().At(0).Type()
+		r := vc.fresh("toSlicePtr", "Slice")
+		pt := rt.Underlying().(*types.Slice).Elem()
+		bc := e.boxComp(pt)
+		s := cx.args[0]
+		vc.assumeIf(cx.st.pc, fmt.Sprintf("(and (= (s_len %s) (s_len %s)) (>= (rootid (s_arr %s)) %s))", r, s, r, cx.st.alloc))
+		na := vc.fresh("alloc", "Int")
+		vc.assume(fmt.Sprintf("(> %s %s)", na, cx.st.alloc))
+		cx.st.alloc = na
+		e.wf(cx.st, r, rt)
+		vc.assumeIf(cx.st.pc, fmt.Sprintf("(forall ((j Int)) (! (=> (and (<= 0 j) (< j (s_len %s))) (= (select %s (sidx %s j)) (sidx %s j))) :pattern ((sidx %s j))))", r, e.get(cx.st, bc), r, s, r))
+		return []Term{r}
 	}
 }
